@@ -24,6 +24,11 @@ func stackFor(c *proto.Case) *stack {
 		key := fmt.Sprintf("stack|%s|%v|%v", proto.Marshal(c.Body["cfg"]), tv, ov)
 		return shared(key, func() interface{} { return newSharedStack(Protocol(c.Body["cfg"]), tv, ov) }).(*stack)
 	}
+	if PlainValidators {
+		tv, _ := c.Body["tv_fail"].(bool)
+		ov, _ := c.Body["ov_fail"].(bool)
+		return newSharedStack(Protocol(c.Body["cfg"]), tv, ov)
+	}
 	s := newStack(Protocol(c.Body["cfg"]))
 	if b, ok := c.Body["tv_fail"].(bool); ok {
 		s.tv.fail = b
